@@ -1,10 +1,17 @@
 import SalsaVerif.Drive.Common
 import SalsaVerif.Drive.Edges
+import SalsaVerif.Drive.Lru
+import SalsaVerif.Drive.Intern
+import SalsaVerif.Drive.SyncDG
 
 /-! `svdriver <model>` — reads an op file on stdin, prints one line per op. -/
 def main (args : List String) : IO UInt32 := do
   match args with
   | ["edges"] => SalsaVerif.Drive.Edges.main; return 0
+  | ["dg"] => SalsaVerif.Drive.SyncDG.main; return 0
+  | ["lru"] => SalsaVerif.Drive.Lru.main; return 0
+  | ["rq"] => SalsaVerif.Drive.Intern.mainRq; return 0
+  | ["intern"] => SalsaVerif.Drive.Intern.mainIntern; return 0
   | _ =>
-    IO.eprintln "usage: svdriver <model>  (models: edges)"
+    IO.eprintln "usage: svdriver <model>  (models: edges, dg, lru, rq, intern)"
     return 2
